@@ -1,32 +1,48 @@
 """C01 - readers load exactly what the file contains."""
 import json, os
+from collections import Counter
 import common as C
 from common import Failure, coq_list
 import oscgen as G
 import jetgen as J
 
 ID = "C01"
-GEN = ["gen_particle_tables"]
+GEN = ["gen_particle_tables", "gen_genflow"]
 ALLOWED_AXIOMS = []
 TRUSTED = [
     "Coq 8.16.1 kernel + vm_compute (no native_compute); every theorem closed under the global context",
     "translator tools/py2coq/gen_particle_tables.py: attribute_mapping, the float/int cast lists, the relaxed-column formats of Particle.__initialize_from_array and OscarLoader._set_custom_attr_list.attr_map as Coq tables",
+    "translator tools/py2coq/gen_genflow.py: for each of the eight GenerateFlow.generate_dummy_* writers the text of every output.write (literal header/trailer lines, f-string event header/footer with their holes, the %g/%d row format with its argument tuple; numeric literals and the method's constants mass/pdg/status folded with Python's own % operator) as Coq piece lists; it aborts on any statement inside a writer that mentions `output` in another shape, on other loops than `for event in range(number_events)` / `for particle in range(multiplicity)`, on other conversions than %g/%d, and when the guard `number_events < 1 or multiplicity < 1` is missing",
     "hand models coq/Model/Oscar.v, Jetscape.v of the loaders (token level: a line is line.split(' ') resp. tab/blank split), tied by this run's correspondence on generated files incl. tab- and blank-separated JETSCAPE headers and files without final newline",
-    "oracles (universally quantified functions in the theorems, tables computed by the harness in the correspondence): Python float()/int() on a token, PDGID.is_valid/charge, numpy sqrt",
+    "coq/Model/GenFlowDoc.v: interpreter of the regenerated write templates (stream of written characters -> lines at the newlines -> tokens at blanks / blanks+tabs); the text filled into a hole is opaque (taken to contain no blank, tab or newline: what %g, %d, str(int) print); tied to the real writers by this run's correspondence (the real file must equal gen_render on the %g texts found in it, with Python's str(int) as dec)",
+    "oracles (universally quantified functions in the theorems, tables computed by the harness in the correspondence): Python float()/int() on a token, PDGID.is_valid/charge, numpy sqrt, str(int)/%d (dec) and %g (vals) in the generator theorems",
     "character level -> token level: proved (Lib/Split.v): split(' ') of a joined line gives its tokens, a blank-free pattern occurs in the line iff inside a token, ' p ' iff an inner token equals p; the raw tests 'in ' and ' start' are tied to their token forms by the correspondence only; tab-separated JETSCAPE headers by the correspondence",
     "Oscar2013Extended_IC / _Photons header scans are not modelled (outside the property's format list)",
 ]
 ASSUMPTIONS = ["nearest-double parsing is Python's float(); the property oracle re-derives it independently as float(Fraction(token))",
-               "float rounding of the derived JETSCAPE mass is not modelled (compared within 1e-9)"]
+               "float rounding of the derived JETSCAPE mass is not modelled (compared within 1e-9)",
+               "generator theorems: hypotheses on the oracles, each a fact about Python on tokens that occur in the file - str(n) consists of numeric characters and int(str(n)) = n for n <= max(nev, mult); every %g text consists of numeric characters and float() accepts it; float() accepts the row constants written with %g ('1', '0.138'), int() those written with %d ('211', '27', '1'), float() accepts the footer's impact literal '-1.000'; for JETSCAPE the first two float()-parsable words of the trailer are s1, s2 (float() rejects '#', 'sigmaGen', 'sigmaErr'). Non-finite momenta ('nan', 'inf' from %g) are outside the hypotheses",
+               "what the writers compute (sampling, energy = sqrt(p^2+m^2), the %g rounding of the values) is not part of C01; only the structure of the written file is"]
 LEVEL_TEXT = ("Theorems (Coq, closed under the global context): for every well-formed Oscar2013/Extended/ASCII or JETSCAPE document "
               "(any number of events >= 1, any multiplicities incl. empty events anywhere) the loader model returns exactly the document's "
               "events and particle lines in order, counts, number of events, format, each event's own impact parameter / sigmaGen; "
               "column tables regenerated from the source equal the documented layout; every listed column lands in its slot with its cast; "
               "derived JETSCAPE mass/charge; lines of the documented shapes are classified correctly for any numeric tokens. "
-              "The loader models are run against the real readers on every run together with an independent re-parse oracle.")
-LEVEL_NOTE = ("Hand-written loader models at token level (tied by correspondence, not regenerated); tables regenerated; oracles for float()/int()/PDG/sqrt; "
-              "char-level substring semantics proved for blank-free and blank-delimited patterns (Lib/Split.v), two raw tests by correspondence; GenerateFlow writers are exercised by read-back in the correspondence only.")
-TECHNIQUE = "Coq proof by induction over the events of a rendered document against an executable loader model; regenerated column tables; vm_compute correspondence with the real readers"
+              "Files written by SPARKX's own flow generators: for each of the eight GenerateFlow writers (templates regenerated from GenerateFlow.py on "
+              "every run), every number of events >= 1, every multiplicity and all %g texts, the written text is the rendering of a well-formed "
+              "Oscar2013 resp. JETSCAPE document with exactly nev events of mult particle lines (header lines, labels consecutive from 0 resp. 1, "
+              "declared counts = rows written, particle IDs 0..mult-1, %g texts in real columns and %d texts in integer columns of the documented "
+              "column table, footer / trailer shape incl. the missing final newline), hence (composed with the load theorems) loading it returns nev events "
+              "of mult particles, counts [(label, mult)], format Oscar2013 resp. the trailer's sigmaGen. "
+              "The loader models and the template interpreter are run against the real readers / writers on every run together with independent re-parse oracles.")
+LEVEL_NOTE = ("Hand-written loader models at token level (tied by correspondence, not regenerated); tables and writer templates regenerated; oracles for float()/int()/PDG/sqrt/%g/str(int); "
+              "char-level substring semantics proved for blank-free and blank-delimited patterns (Lib/Split.v), two raw tests by correspondence. "
+              "Generator theorems: hole texts are opaque tokens (no char-level theorem that %g/%d output is blank-free), the writers' sampling code and value formatting are not modelled, "
+              "JETSCAPE writers are hadron files only (N_hadrons), all events of one file have the same multiplicity because the writers take a single int; "
+              "the k-particle-correlation writers can raise IndexError inside __create_k_particle_correlations before anything but the header is written (such calls are skipped and counted in the notes).")
+TECHNIQUE = ("Coq proof by induction over the events of a rendered document against an executable loader model; regenerated column tables; "
+             "writer templates extracted from GenerateFlow.py and interpreted in Coq (write stream -> lines -> tokens), refinement to the format definition's render; "
+             "vm_compute correspondence with the real readers and writers")
 
 PRELUDE = """From Coq Require Import List String ZArith QArith.
 From SX Require Import Lib.Strs Gen.GenParticleMap Model.Oscar Model.Jetscape.
@@ -131,6 +147,246 @@ def generator_cases(ctx):
     return out
 
 
+# ------------------------------------------------------------------ GenerateFlow writers against gen_render
+WRITERS = [("generate_dummy_JETSCAPE_file", {}), ("generate_dummy_JETSCAPE_file_realistic_pT_shape", {}),
+           ("generate_dummy_JETSCAPE_file_multi_particle_correlations", {"k_particle_correlation": 2, "correlation_fraction": 0.5}),
+           ("generate_dummy_JETSCAPE_file_realistic_pT_shape_multi_particle_correlations", {"k_particle_correlation": 3, "correlation_fraction": 0.75}),
+           ("generate_dummy_OSCAR_file", {}), ("generate_dummy_OSCAR_file_realistic_pT_shape", {}),
+           ("generate_dummy_OSCAR_file_multi_particle_correlations", {"k_particle_correlation": 2, "correlation_fraction": 0.5}),
+           ("generate_dummy_OSCAR_file_realistic_pT_shape_multi_particle_correlations", {"k_particle_correlation": 3, "correlation_fraction": 0.75})]
+# where the harness expects the %g texts of a particle line (independent of the translator's output)
+VALUE_COLS = {"oscar": {"energy": 5, "px_": 6, "py_": 7, "pz_": 8}, "jet": {"energy": 3, "px_": 4, "py_": 5, "pz_": 6}}
+GENFLOW_PRELUDE = """From Coq Require Import List String ZArith QArith.
+From SX Require Import Lib.Strs Gen.GenGenFlow Model.GenFlowDoc.
+Import ListNotations.
+Local Open Scope string_scope.
+"""
+
+
+def write_genflow(case, path):
+    """run the real writer of `case`; returns the text, or None when the generator itself raised"""
+    from sparkx.flow.GenerateFlow import GenerateFlow
+    import warnings
+    try:
+        os.remove(path)
+    except OSError:
+        pass
+    try:
+        with warnings.catch_warnings():
+            warnings.simplefilter("ignore")
+            g = GenerateFlow(*case["vn"])
+            getattr(g, case["writer"])(path, case["nev"], case["mult"], case["seed"], **case["kw"])
+    except IndexError:
+        # __create_k_particle_correlations can run off its momentum arrays (no complete file is produced)
+        return None
+    with open(path) as f:
+        return f.read()
+
+
+def genflow_lines(case, text):
+    lines = text.split("\n")
+    if lines and lines[-1] == "":
+        lines = lines[:-1]
+    if case["family"] == "jet":
+        return [l.replace("\t", " ").split(" ") for l in lines]
+    return [l.split(" ") for l in lines]
+
+
+def genflow_cases(ctx):
+    out = []
+    sizes = [(1, 1), (2, 3)] if ctx.quick else [(1, 1), (1, 4), (2, 3), (3, 2), (4, 5), (2, 12)]
+    for name, kw in WRITERS:
+        for nev, mult in sizes:
+            fam = "jet" if "JETSCAPE" in name else "oscar"
+            case = None
+            for attempt in range(12):
+                c = {"kind": "genflow", "writer": name, "family": fam, "nev": nev, "mult": mult,
+                     "seed": ctx.rng.randint(1, 10**6), "kw": dict(kw), "vn": [0.1, 0.05]}
+                if "realistic" in name and ctx.rng.random() < 0.5:
+                    c["kw"]["random_reaction_plane"] = False
+                text = write_genflow(c, os.path.join(ctx.work, "genflow.dat"))
+                if text is not None:
+                    case = c
+                    case["text"] = text
+                    break
+            if case is None:
+                ctx.notes.append(f"{name}({nev},{mult}): generator raised IndexError for 12 seeds, no file to compare")
+                continue
+            out.append(case)
+    return out
+
+
+def coq_genflow(case):
+    lines = genflow_lines(case, case["text"])
+    nev, mult = case["nev"], case["mult"]
+    decs = coq_list([f"({n}%nat, {C.coq_str(str(n))})" for n in range(max(nev, mult) + 2)])
+    vt = []
+    per = mult + (1 if case["family"] == "jet" else 2)
+    first = 1 if case["family"] == "jet" else 3
+    for i in range(nev):
+        for j in range(mult):
+            k = first + i * per + 1 + j
+            row = lines[k] if k < len(lines) else []
+            for name, col in VALUE_COLS[case["family"]].items():
+                if col < len(row):
+                    vt.append(f"({i}%nat, {j}%nat, {C.coq_str(name)}, {C.coq_str(row[col])})")
+    file = coq_list([coq_list([C.coq_str(t) for t in l]) for l in lines])
+    return f"(check_genflow {C.coq_str(case['writer'])} {decs} {coq_list(vt)} {nev} {mult} {file})"
+
+
+def refuses(case):
+    """the sizes below w_min_events / w_min_mult: the writer must raise ValueError (it would otherwise write a file
+    without events resp. with empty events, which gen_render does not describe)"""
+    from sparkx.flow.GenerateFlow import GenerateFlow
+    work = os.path.join(C.VERIF, ".work")
+    os.makedirs(work, exist_ok=True)
+    path = os.path.join(work, f"refuse_{os.getpid()}.dat")
+    try:
+        getattr(GenerateFlow(*case["vn"]), case["writer"])(path, case["nev"], case["mult"], case["seed"], **case["kw"])
+    except ValueError:
+        return None
+    except Exception as e:
+        return f"{case['writer']}({case['nev']}, {case['mult']}) raises {type(e).__name__} instead of ValueError"
+    finally:
+        try:
+            os.remove(path)
+        except OSError:
+            pass
+    return f"{case['writer']} accepts number_events={case['nev']}, multiplicity={case['mult']} and writes a file"
+
+
+def oracle_genflow(case):
+    """property oracle for a generator case: the file the real writer produces, loaded with no options, against an
+    independent re-parse of its text"""
+    import warnings, math
+    import numpy as np
+    if case.get("expect") == "ValueError":
+        return refuses(case)
+    work = os.path.join(C.VERIF, ".work")
+    os.makedirs(work, exist_ok=True)
+    path = os.path.join(work, f"oracle_genflow_{os.getpid()}" + (".dat" if case["family"] == "jet" else ".oscar"))
+    try:
+        text = write_genflow(case, path)
+        if text is None:
+            return None
+        raw = text.split("\n")
+        if raw and raw[-1] == "":
+            raw = raw[:-1]
+        nev, mult = case["nev"], case["mult"]
+        with warnings.catch_warnings():
+            warnings.simplefilter("ignore")
+            if case["family"] == "oscar":
+                from sparkx.Oscar import Oscar
+                try:
+                    o = Oscar(path)
+                except Exception as e:
+                    return f"file written by {case['writer']} is rejected by Oscar(): {type(e).__name__}: {e}"[:300]
+                body = [l for l in raw[3:] if not l.startswith("#")]
+                heads = [l for l in raw[3:] if l.startswith("#") and " out " in l]
+                cols = G.HEADER_COLS["Oscar2013"]
+                want_counts = [[int(h.split(" ")[2]), int(h.split(" ")[4])] for h in heads]
+                if o.oscar_format() != "Oscar2013":
+                    return f"detected format {o.oscar_format()!r}"
+                imp = [float(x) for x in o.impact_parameters()]
+                ends = [l for l in raw[3:] if l.startswith("#") and " end " in l]
+                want_imp = [G.nearest_double([x for x in l.split(" ") if x][-3]) for l in ends]
+                if imp != want_imp:
+                    return f"impact_parameters() = {imp}, file states {want_imp}"
+            else:
+                from sparkx.Jetscape import Jetscape
+                try:
+                    o = Jetscape(path)
+                except Exception as e:
+                    return f"file written by {case['writer']} is rejected by Jetscape(): {type(e).__name__}: {e}"[:300]
+                body = [l for l in raw[1:] if not l.startswith("#")]
+                heads = [l for l in raw[1:-1] if l.startswith("#")]
+                cols = ["ID", "pdg", "status", "p0", "px", "py", "pz"]
+                want_counts = [[int(h.split(" ")[2]), int(h.split(" ")[8])] for h in heads]
+                tr = raw[-1].split()
+                sg = [float(x) for x in o.get_sigmaGen()]
+                if sg != [G.nearest_double(tr[2]), G.nearest_double(tr[4])]:
+                    return f"get_sigmaGen() = {sg}, file states {tr[2]}, {tr[4]}"
+            if len(heads) != nev or any(c != [i + (1 if case["family"] == "jet" else 0), mult] for i, c in enumerate(want_counts)):
+                return f"writer called with ({nev}, {mult}) declares events {want_counts}"
+            if len(body) != nev * mult:
+                return f"writer called with ({nev}, {mult}) wrote {len(body)} particle lines"
+            if o.num_events() != nev:
+                return f"num_events() = {o.num_events()}, file has {nev}"
+            cnt = np.asarray(o.num_output_per_event()).tolist()
+            if cnt != want_counts:
+                return f"num_output_per_event() = {cnt}, file states {want_counts}"
+            evs = o.particle_objects_list()
+            if [len(e) for e in evs] != [mult] * nev:
+                return f"events of sizes {[len(e) for e in evs]} loaded, file has {nev} x {mult}"
+            attr = dict(G.ATTR, status="status")
+            kind = dict(G.ASCII_KIND, status="i")
+            for i, ev in enumerate(evs):
+                for j, p in enumerate(ev):
+                    row = body[i * mult + j].split(" ")
+                    if len(row) != len(cols):
+                        return f"particle line with {len(row)} columns: {body[i * mult + j]!r}"
+                    for h, tok in zip(cols, row):
+                        got = getattr(p, attr[h])
+                        exp = G.nearest_double(tok) if kind[h] == "f" else int(tok)
+                        if not G.same(got, exp) or (kind[h] != "f" and not isinstance(got, (int, np.integer))):
+                            return f"event {i} particle {j} column {h}: file says {tok!r}, attribute = {got!r}"
+                    if case["family"] == "jet":
+                        E, px, py, pz = (G.nearest_double(t) for t in row[3:7])
+                        m2 = E * E - (px * px + py * py + pz * pz)
+                        m = p.mass
+                        if m2 >= 0 and not (abs(m - math.sqrt(m2)) <= 1e-9 * (1 + abs(m))):
+                            return f"event {i} particle {j}: derived mass {m!r}, sqrt(E^2-p^2) = {math.sqrt(m2)!r}"
+                        if p.charge != 1:
+                            return f"event {i} particle {j}: derived charge {p.charge!r} for pdg 211"
+        return None
+    finally:
+        try:
+            os.remove(path)
+        except OSError:
+            pass
+
+
+def genflow_stream(ctx, out):
+    """GenerateFlow writers: the structure of the real file must be gen_render on the %g texts found in it"""
+    cases = genflow_cases(ctx)
+    ok, log = C.make(["Model/GenFlowDoc.vo"])
+    if not ok:
+        out["broken"].append({"what": "Model/GenFlowDoc.v does not build", "detail": log[-800:]})
+        return
+    body = coq_list([coq_genflow(c) for c in cases])
+    (ok, o), = C.coq_eval_many(ctx, [("c01_genflow", GENFLOW_PRELUDE + f"Eval vm_compute in {body}.\n")])
+    if not ok:
+        out["broken"].append({"what": "cases file c01_genflow failed", "detail": o[-1500:]})
+        return
+    codes = C.parse_codes(o)
+    if len(codes) != len(cases):
+        out["broken"].append({"what": "c01_genflow: number of codes differs from number of cases", "detail": o[-600:]})
+        return
+    out["evaluations"] += len(cases)
+    out["distinct_nontrivial"] += len({c["text"] for c in cases})
+    out["traces_validated_against_impl"] = out.get("traces_validated_against_impl", 0) + sum(1 for c in codes if c == 0)
+    out.setdefault("distribution", {})["genflow_codes"] = dict(Counter(codes))
+    out["distribution"]["genflow_sizes"] = dict(Counter(f"{c['nev']}x{c['mult']}" for c in cases))
+    out["samples"].append(cases[0]["text"][:300])
+    for name, kw in WRITERS:
+        for nev, mult in ((0, 1), (1, 0)):
+            c = {"kind": "genflow", "writer": name, "family": "jet" if "JETSCAPE" in name else "oscar", "nev": nev,
+                 "mult": mult, "seed": 1, "kw": dict(kw), "vn": [0.1, 0.05], "expect": "ValueError"}
+            msg = refuses(c)
+            out["evaluations"] += 1
+            if msg:
+                out["failures"].append(Failure(c, "size guard of the writer", on_impl=msg))
+    for c, code in zip(cases, codes):
+        rep = {k: v for k, v in c.items() if k != "text"}
+        if code != 0:
+            out["failures"].append(Failure(rep, f"file written by {c['writer']}({c['nev']}, {c['mult']}, seed {c['seed']}) differs from "
+                                                f"gen_render on the templates of GenerateFlow.py (code {code}); file: {c['text'][:300]!r}"))
+        msg = oracle_genflow(c)
+        if msg:
+            out["failures"].append(Failure(rep, "property oracle", on_impl=msg))
+
+
+
 def gen_case(rng):
     if rng.random() < 0.4:
         d = J.gen_doc(rng)
@@ -176,11 +432,14 @@ def correspondence(ctx, model_ok=True):
         msg = oracle(c)
         if msg:
             out["failures"].append(Failure({"kind": c["kind"], "doc": c["doc"]}, "property oracle", on_impl=msg))
+    genflow_stream(ctx, out)
     return out
 
 
 def oracle(case):
     os.makedirs(os.path.join(C.VERIF, ".work"), exist_ok=True)
+    if case.get("kind") == "genflow":
+        return oracle_genflow(case)
     if case.get("kind") == "jet":
         return J.oracle_load(case["doc"], os.path.join(C.VERIF, ".work"))
     return G.oracle_load(case["doc"], os.path.join(C.VERIF, ".work"))
